@@ -33,8 +33,8 @@ for _r, _fl in RECORDS.items():
     assert not any(k in f for f in _fl for k in ('if_true', 'if_false', 'optional')), _r
 
 BOUNDS = {
-    'quick': {'S': 4, 'A': 2, 'long': 140, 'obf_max': 140},
-    'thorough': {'S': 8, 'A': 3, 'long': 300, 'obf_max': 300},
+    'quick': {'S': 4, 'A': 2, 'long': 140, 'obf_max': 140, 'rich': False},
+    'thorough': {'S': 10, 'A': 4, 'long': 300, 'obf_max': 300, 'rich': True},
 }
 
 # ------------------------------------------------------------------------------
@@ -42,14 +42,23 @@ BOUNDS = {
 # ------------------------------------------------------------------------------
 
 
-def profiles(S, A, long):
+def profiles(S, A, long, rich=False):
     """size profiles: the k-th text/blob leaf gets s[(k+so) % len(s)] bytes, the k-th array a[(k+ao) % len(a)]
-    elements.  Uniform profiles for every (s, a) in 0..S x 0..A, staggered ones, and one with a long
-    leading text (> 128 bytes: crosses the obfuscation key cycle on a real frame)."""
+    elements.  Uniform profiles for every (s, a) in 0..S x 0..A, staggered ones (consecutive leaves get different
+    sizes), and one with a long leading text (> 128 bytes: crosses the obfuscation key cycle on a real frame).
+    rich (thorough tier): every combination of text and array offsets, and a second cycle order with stride 3."""
     out = [{'s': [s], 'a': [a]} for s in range(S + 1) for a in range(A + 1)]
     cyc_s, cyc_a = list(range(S + 1)), list(range(A + 1))
-    for k in range(max(4, S + 1)):
-        out.append({'s': cyc_s, 'a': cyc_a, 'so': k, 'ao': k})
+    if rich:
+        for so in range(S + 1):
+            for ao in range(A + 1):
+                out.append({'s': cyc_s, 'a': cyc_a, 'so': so, 'ao': ao})
+        st = [(3 * i) % (S + 1) for i in range(S + 1)] if (S + 1) % 3 else cyc_s[::2] + cyc_s[1::2]
+        for so in range(S + 1):
+            out.append({'s': st, 'a': cyc_a[::-1], 'so': so, 'ao': so})
+    else:
+        for k in range(max(4, S + 1)):
+            out.append({'s': cyc_s, 'a': cyc_a, 'so': k, 'ao': k})
     out.append({'s': cyc_s[::-1], 'a': cyc_a[::-1], 'so': 0, 'ao': 1})
     out.append({'s': [1], 'a': [1], 'first': long})
     return out
@@ -95,7 +104,7 @@ _SHAPES = {}
 
 
 def shapes_cached(name, fields, bounds):
-    key = (name, bounds['S'], bounds['A'], bounds['long'])
+    key = (name, bounds['S'], bounds['A'], bounds['long'], bool(bounds.get('rich')))
     if key not in _SHAPES:
         _SHAPES[key] = shapes_for(fields, bounds)
     return _SHAPES[key]
@@ -110,7 +119,7 @@ def shapes_for(fields, bounds):
         flags = {n: bool(fbits >> i & 1) for i, n in enumerate(fn)}
         opts = [f['name'] for f in fields if f.get('optional') and applicable(f, flags)]
         for nopt in range(len(opts) + 1):
-            for prof in profiles(bounds['S'], bounds['A'], bounds['long']):
+            for prof in profiles(bounds['S'], bounds['A'], bounds['long'], bool(bounds.get('rich'))):
                 sz = Sizes(prof)
                 _walk_sizes(fields, flags, opts[:nopt], sz)
                 key = (fbits, nopt, tuple(sz.trace))
@@ -309,10 +318,10 @@ def make_connection(group, kind, obf):
 # H1: message round trip, layout, prefix, dispatch, connection level
 # ------------------------------------------------------------------------------
 
-def h_message(c, cls_name, S, A, long):
+def h_message(c, cls_name, S, A, long, part=0, parts=1, rich=False):
     L = MESSAGES[cls_name]
     fields, idw, comp = L['fields'], L['id_width'], L['compressed']
-    shapes = shapes_cached(cls_name, fields, {'S': S, 'A': A, 'long': long})
+    shapes = shapes_cached(cls_name, fields, {'S': S, 'A': A, 'long': long, 'rich': rich})[part::parts]
     shape = shapes[c.choose(len(shapes), 'shape')]
     sig = [cls_name, shape_tag(shape)]
     info = {'shape': shape}
@@ -424,7 +433,7 @@ PRIMS = ['uint8', 'uint16', 'uint32', 'uint64', 'int32', 'boolean', 'string', 'b
          'array:uint32', 'array:string', 'array:record:Attribute']
 
 
-def h_element(c, what, S, A, long):
+def h_element(c, what, S, A, long, rich=False):
     """record classes and primitives: serialize() == serialize_into() == reference bytes;
     deserialize(pos, prefix + bytes + suffix) == (pos + len, value)"""
     if what.startswith('record:'):
@@ -434,7 +443,7 @@ def h_element(c, what, S, A, long):
     else:
         t, sub = what, None
     profs, seen = [], set()
-    for p in profiles(S, A, long):
+    for p in profiles(S, A, long, rich):
         sz = Sizes(p)
         _walk_type(t, sub, sz)
         if tuple(sz.trace) not in seen:
@@ -585,7 +594,9 @@ META = {
                       'plain vs obfuscated connection; connection kind follows the message group', 'obfuscation: data length'],
     'bounds': {'quick': {'text/blob byte length': '0..4 (uniform and staggered profiles) plus one 140-byte text', 'array elements': '0..2 (nested arrays too)',
                          'obfuscation data length': '0..140, every length'},
-               'thorough': {'text/blob byte length': '0..8 plus one 300-byte text', 'array elements': '0..3', 'obfuscation data length': '0..300, every length'}},
+               'thorough': {'text/blob byte length': '0..10 plus one 300-byte text', 'array elements': '0..4 (nested arrays too)',
+                            'size profiles': 'uniform x every text/array offset combination of the staggered cycles x a stride-3 cycle',
+                            'obfuscation data length': '0..300, every length'}},
     'outside': ['texts/blobs longer and arrays larger than the bound; size profiles other than the uniform / staggered / long-first ones (lengths of '
                 'different leaves are not combined exhaustively)',
                 'non-prefix-closed optionals (a later trailing optional present while an earlier one is absent) - out of the wire domain',
@@ -602,23 +613,28 @@ META = {
 
 def jobs(tier):
     b = BOUNDS[tier]
-    p = {'S': b['S'], 'A': b['A'], 'long': b['long']}
+    p = {'S': b['S'], 'A': b['A'], 'long': b['long'], 'rich': b['rich']}
     out = []
     req = ['encoded', 'length_prefix', 'message_code', 'wire_layout', 'roundtrip', 'wire_framing', 'dispatch_class',
            'roundtrip_connection', 'real_codec_witness']
-    # heavy classes first so that the pool stays busy
-    names = sorted(MESSAGES, key=lambda k: -_weight(MESSAGES[k]['fields']))
-    for name in names:
-        out.append({'harness': 'message', 'fn': h_message, 'params': {'cls_name': name, **p}, 'requires': req})
+    # the shapes of a class are split over several jobs (about SHAPES_PER_JOB units of work each); heavy ones first
+    limits = {'timeout_s': 1200 if tier == 'quick' else 3000, 'solver_timeout_ms': 120000}   # wall-clock limits: generous, the
+    # queries take milliseconds; they only matter when the machine is heavily oversubscribed
+    for name in sorted(MESSAGES, key=lambda k: -_weight(MESSAGES[k]['fields'])):
+        n = len(shapes_cached(name, MESSAGES[name]['fields'], p))
+        parts = max(1, min(n, round(n * _weight(MESSAGES[name]['fields']) / 400)))
+        for part in range(parts):
+            out.append({'harness': 'message', 'fn': h_message, 'params': {'cls_name': name, **p, 'part': part, 'parts': parts},
+                        'requires': req, **limits})
     for r in RECORDS:
-        out.append({'harness': 'element', 'fn': h_element, 'params': {'what': 'record:' + r, **p},
+        out.append({'harness': 'element', 'fn': h_element, 'params': {'what': 'record:' + r, **p}, **limits,
                     'requires': ['element_encoded', 'element_layout', 'element_layout_into', 'element_position', 'element_roundtrip']})
     for t in PRIMS:
-        out.append({'harness': 'element', 'fn': h_element, 'params': {'what': t, **p},
+        out.append({'harness': 'element', 'fn': h_element, 'params': {'what': t, **p}, **limits,
                     'requires': ['element_encoded', 'element_layout', 'element_layout_into', 'element_position', 'element_roundtrip']})
     step = 10
     for lo in range(0, b['obf_max'] + 1, step):
-        out.append({'harness': 'obfuscation', 'fn': h_obfuscation, 'params': {'lo': lo, 'hi': min(lo + step - 1, b['obf_max'])},
+        out.append({'harness': 'obfuscation', 'fn': h_obfuscation, 'params': {'lo': lo, 'hi': min(lo + step - 1, b['obf_max'])}, **limits,
                     'requires': ['obfuscated', 'obf_length', 'obf_key_prefix', 'obf_keystream', 'obf_roundtrip', 'obf_decode_keystream',
                                  'obf_generated_key']})
     return out
@@ -633,7 +649,7 @@ def _weight(fields):
 
 
 def prelude(tier):
-    notes = codec.validate(deep=(tier == 'thorough'))
+    notes = codec.validate()
     # pinned table vs code: every pinned class must exist (else its job reports it); extra classes are not covered
     in_code = set()
     for base in (M.ServerMessage, M.PeerInitializationMessage, M.PeerMessage, M.DistributedMessage):
